@@ -434,6 +434,46 @@ def build(run):
         return bounded_ok(n, f"{n} corpus forms, each built twice", sample="equal forms have equal signatures")
     run.add("equal-forms-equal-signatures", equal_forms, kind="bounded")
 
+    # ------------------------------------------------------------------ (g) the signature is a function of the form alone: objects shared with forms whose
+    # signatures were computed earlier (spaces, meshes, coefficients are reused across the forms of a problem) carry nothing over
+    def sig_history():
+        from ufl import Coefficient, Constant, FunctionSpace, Measure, TestFunction
+
+        def world_():
+            S.set_counters({k: 60 for k in S.COUNTER_FAMILIES})
+            m0, m1 = S.new_mesh(), S.new_mesh()
+            V0, V1, W1 = FunctionSpace(m0, S.L(ufl.triangle, 1)), FunctionSpace(m1, S.L(ufl.triangle, 1)), FunctionSpace(m1, S.L(ufl.triangle, 2, (2,)))
+            f0, g0, f1, w1 = Coefficient(V0), Coefficient(V0), Coefficient(V1), Coefficient(W1)
+            c1 = Constant(m1)
+            v1 = TestFunction(V1)
+            dx0, dx1 = Measure("dx", domain=m0), Measure("dx", domain=m1)
+            forms = {
+                "A: f1*dx(m1)": f1 * dx1, "A2: f1*c1*v1*dx(m1) + w1[0]*dx(m1)": f1 * c1 * v1 * dx1 + w1[0] * dx1,
+                "B: f0*f1*dx(m0)": f0 * f1 * dx0, "C: f0*g0*dx(m0)": f0 * g0 * dx0, "D: f0*w1[1]*c1*dx(m0) + f1*dx(m1)": f0 * w1[1] * c1 * dx0 + f1 * dx1,
+                "E: f1*f0*dx(m1)": f1 * f0 * dx1,
+            }
+            return forms
+        names = list(world_())
+        alone = {}
+        for nm in names:
+            alone[nm] = _sig(world_()[nm])          # fresh objects, nothing computed before
+        n = 0
+        for first in names:
+            forms = world_()
+            _sig(forms[first])                       # a signature computed earlier on objects shared with the other forms
+            for nm in names:
+                n += 1
+                got = _sig(forms[nm])
+                if got != alone[nm]:
+                    return violated(f"the signature of '{nm}' is {got[:12]}... after the signature of '{first}' (sharing its meshes / spaces / coefficients) was computed, "
+                                    f"and {alone[nm][:12]}... when it is computed first: the signature depends on what was signed before",
+                                    replay={"first": first, "form": nm, "sig_after": got, "sig_alone": alone[nm]}, reproduced=True, backend="exec")
+        if alone["B: f0*f1*dx(m0)"] == alone["C: f0*g0*dx(m0)"]:
+            return violated("f0*f1*dx(m0) (f1 on a second mesh) and f0*g0*dx(m0) have the same signature", reproduced=True)
+        return bounded_ok(n, f"{len(names)} x {len(names)} (signed first, signed afterwards) pairs over forms sharing two meshes, three spaces, four coefficients",
+                          sample="every signature equals the one computed on fresh objects")
+    run.add("signature-independent-of-earlier-signatures", sig_history, kind="bounded")
+
     def canary():
         S.set_counters({})
         m = S.new_mesh()
